@@ -37,10 +37,13 @@ theorem gll_long {hash : Str → Str} {p s : Str} {m : Int} (h : shortens p s m 
   simp only [getLengthLimitedID, eff]
   rw [if_neg h]
 
+/-- `shortenedLen` of the Go code. -/
+def shortenedLen (p : Str) (m : Int) : Int := min m ((p.length : Int) + 1 + 43)
+
 theorem shortens_false_iff {p s : Str} {m : Int} : shortens p s m = false ↔
     ((p.length : Int) + ((eff s).length : Int) ≤ m ∧
-      ((p.length : Int) + ((eff s).length : Int) = m → (eff s).take 1 ≠ [us])) := by
-  simp only [shortens, eff, decide_eq_false_iff_not, not_or, not_and, Int.not_lt]
+      ((p.length : Int) + ((eff s).length : Int) = shortenedLen p m → (eff s).take 1 ≠ [us])) := by
+  simp only [shortens, eff, shortenedLen, decide_eq_false_iff_not, not_or, not_and, Int.not_lt]
 
 theorem append_eq_append_prefix : ∀ {p1 p2 r1 r2 : Str}, p1 ++ r1 = p2 ++ r2 →
     isPrefix p1 p2 = true ∨ isPrefix p2 p1 = true
